@@ -68,8 +68,12 @@ def _slice_for(fn, targets):
     keep = []
     last = -1
     for k, st in enumerate(body):
-        if isinstance(st, ast.Assign) and any(
-                src(t) in targets for t in st.targets):
+        if isinstance(st, (ast.FunctionDef, ast.AsyncFunctionDef,
+                           ast.ClassDef, ast.Import, ast.ImportFrom)):
+            continue
+        # any write of a target: binding, store through it, in-place method
+        # (`self.duct_ftf = []` followed by a loop of `.append`)
+        if _writes_reads(st)[0] & set(targets):
             last = k
     if last < 0:
         return None
